@@ -51,6 +51,7 @@ import (
 	"os"
 	"slices"
 	"strings"
+	"unsafe"
 
 	"golang.org/x/tools/go/ssa"
 
@@ -102,6 +103,7 @@ type interpreter struct {
 	pool  map[*value][]value
 
 	ulidCounter int
+	race        *raceTrace
 }
 
 type deferred struct {
@@ -207,6 +209,11 @@ func visitInstr(fr *frame, instr ssa.Instruction) continuation {
 		// no-op
 
 	case *ssa.UnOp:
+		if i.race != nil && instr.Op == token.MUL {
+			if p, ok := fr.get(instr.X).(*value); ok && p != nil {
+				i.raceLoad(mustDeref(instr.X.Type()), p, fr, instr.Pos())
+			}
+		}
 		fr.env[instr] = i.unop(instr, fr.get(instr.X))
 
 	case *ssa.BinOp:
@@ -265,6 +272,9 @@ func visitInstr(fr *frame, instr ssa.Instruction) continuation {
 		addr := fr.get(instr.Addr).(*value)
 		if addr == nil {
 			panic(runtimeError("invalid memory address or nil pointer dereference"))
+		}
+		if i.race != nil {
+			i.raceStore(mustDeref(instr.Addr.Type()), addr, fr.get(instr.Val), fr, instr.Pos())
 		}
 		store(mustDeref(instr.Addr.Type()), addr, fr.get(instr.Val))
 
@@ -338,6 +348,9 @@ func visitInstr(fr *frame, instr ssa.Instruction) continuation {
 		fr.env[instr] = newSmap(instr.Type().Underlying().(*types.Map).Key())
 
 	case *ssa.Range:
+		if m, ok := fr.get(instr.X).(*smap); ok && i.race != nil && m != nil {
+			i.raceAccess(uintptr(unsafe.Pointer(m)), false, fr, instr.Pos())
+		}
 		fr.env[instr] = i.rangeIter(fr, fr.get(instr.X))
 
 	case *ssa.Next:
@@ -403,6 +416,9 @@ func visitInstr(fr *frame, instr ssa.Instruction) continuation {
 
 	case *ssa.Lookup:
 		i.top = fr
+		if m, ok := fr.get(instr.X).(*smap); ok && i.race != nil && m != nil {
+			i.raceAccess(uintptr(unsafe.Pointer(m)), false, fr, instr.Pos())
+		}
 		fr.env[instr] = i.lookup(instr, fr.get(instr.X), fr.get(instr.Index))
 
 	case *ssa.MapUpdate:
@@ -414,6 +430,13 @@ func visitInstr(fr *frame, instr ssa.Instruction) continuation {
 		case *smap:
 			if m == nil {
 				panic(runtimeError("assignment to entry in nil map"))
+			}
+			if i.race != nil {
+				a := uintptr(unsafe.Pointer(m))
+				i.raceAccess(a, true, fr, instr.Pos())
+				if path, ok := i.race.shared[a]; ok {
+					i.markShared(v, nil, path+"[+]", 0)
+				}
 			}
 			m.insert(i, key, v)
 		default:
